@@ -80,7 +80,7 @@ r('EvaluatedValue::unwrap_enum_set', 'macro:panic', 'definition of a typed unwra
 r('EvaluatedValue::unwrap_object_ref', 'macro:panic', 'definition of a typed unwrap; every call site is guarded by a type check (R7.2)')
 r('EvaluatedValue::unwrap_into_simple_value', 'macro:panic', 'definition of a typed unwrap; every call site is guarded by a type check (R7.2)')
 r('evaluate_code', 'index', 'block and local refs of this body; visited_blocks/locals are sized from the body; args[0] under args.len() == 1')
-r('evaluate_code', 'macro:unreachable', 'rests on "no Unreachable block is reachable from block 0": false when a switch body is entered by an unconditional Br and has no completion value (finalize_completion_values ignores Br edges)', None, 'finding')
+r('evaluate_code', 'macro:unreachable', 'no Unreachable block is reachable from block 0: finalize_completion_values gives the marker only to blocks that no live edge enters (C06 R6.4, re-checked here); was finding F3b before the fix of finalize_completion_values', {'kind': 'shared', 'check': 'C06', 'rule': 'R6.4', 'keys': ['unreachable-implies-dead', 'entry-block-reachable', 'brcond-targets-reachable', 'all-br-predecessors-redirected']})
 r('to_evaluated_value', 'index', 'LocalRef of this body; locals sized from the body')
 # propdep
 r('analyze_block', 'index', 'block index below basic_blocks.len(); LocalRef of this body; locals sized from the body')
